@@ -56,6 +56,10 @@ def gen(files, names):
             if fn is None or fn not in names:
                 continue
             code = l.split('//')[0]
+            # statement deletion: a plain assignment or a call statement
+            st = code.strip()
+            if (re.match(r'^[\w.\[\]&*()]+ (=|\|=|\+=|-=) [^=].*$', st) or re.match(r'^[\w.]+\(.*\)$', st)) and not st.startswith(('return', 'if ', 'for ', 'switch ', 'case ', 'defer ', 'go ', 'panic(')):
+                muts.append({'file': f, 'line': i + 1, 'fn': fn, 'old': l.strip(), 'new': '(deleted)', '_new_line': ''})
             for k, (pat, rep) in enumerate(OPS):
                 for m in re.finditer(pat, code):
                     if '"' in code[:m.start()] and code[:m.start()].count('"') % 2 == 1:
